@@ -23,10 +23,16 @@ pub fn campaign(e: &Engine, target: &str, runs: u64, max_len: usize) {
         e.inconclusive(format!("cannot create fuzz corpus dir {:?}", corpus));
         return;
     }
-    let seed_dir = if target == "open_verify" { "open_verify" } else { "structured" };
-    if let Ok(rd) = std::fs::read_dir(format!("{}/corpus/{}", VERIF_DIR, seed_dir)) {
-        for f in rd.flatten() {
-            let _ = std::fs::copy(f.path(), corpus.join(f.file_name()));
+    // seeds: the generic structured seeds plus the target's own committed corpus (small inputs
+    // distilled with -merge=1 from a long background campaign on the pinned tree)
+    for seed_dir in ["structured", target] {
+        if seed_dir == "structured" && target == "open_verify" {
+            continue;
+        }
+        if let Ok(rd) = std::fs::read_dir(format!("{}/corpus/{}", VERIF_DIR, seed_dir)) {
+            for f in rd.flatten() {
+                let _ = std::fs::copy(f.path(), corpus.join(f.file_name()));
+            }
         }
     }
     let found = format!("{}/replays/found", out);
